@@ -208,6 +208,78 @@ def shard_detect_enum(shard, nshards, stride, offset):
     return run
 
 
+def shard_handed_to(shard, seed, n):
+    """'Never handed to a logic that cannot express it': the one-shot factory queries (is_sat / is_valid / is_unsat /
+    get_model, logic omitted or AUTO) on a generic solver that declares a few logics and logs the commands it
+    receives.  Whatever the query answers, the (set-logic X) the process saw must enable every feature of the
+    formula."""
+    import json
+    import os
+    import shutil
+    import tempfile
+    from pysmt.logics import AUTO
+    from vf.checks.c17 import REFSOLVER
+    run = Run(PID)
+    logics = sorted(L.PYSMT_LOGICS, key=str)
+
+    def body(rnd):
+        g = G(cfg=CFGS[rnd.choice([0, 2, 3, 4])], rnd=rnd)
+        bp = g.term(BOOL)
+        env = Environment()
+        tmp = tempfile.mkdtemp(prefix="c13_")
+        log = os.path.join(tmp, "log.jsonl")
+        try:
+            with env:
+                try:
+                    f = pys.build(env, bp)
+                    feats = reffeatures(pys.decode(f))
+                except Exception:
+                    return
+                declared = rnd.sample(logics, rnd.randint(2, 5))
+                env.factory.add_generic_solver("gen", REFSOLVER + ["--log", log], declared)
+                how = rnd.choice(["is_sat", "is_valid", "is_unsat", "get_model"])
+                lg = rnd.choice([None, AUTO])
+                try:
+                    getattr(env.factory, how)(f, solver_name="gen", logic=lg)
+                except Exception:
+                    pass
+            sent = None
+            if os.path.exists(log):
+                for line in open(log):
+                    cmd = json.loads(line)["cmd"] or ""
+                    if cmd.startswith("(set-logic"):
+                        sent = cmd.split()[1].rstrip(")")
+                        break
+            case = {"bp": bp, "declared": [str(l) for l in declared], "query": how, "logic_arg": str(lg)}
+            run.case(key=(bp, tuple(case["declared"]), how, str(lg)), nontrivial=sent is not None)
+            if sent is None:
+                run.cls("handed-to:no-solver-started")
+                return
+            run.cls("handed-to:solver-started")
+            sl = {str(l): l for l in declared}.get(sent)
+            if sl is None:
+                run.fail({"subcheck": "select:handed-to-undeclared-logic"}, case,
+                         "the solver declaring %s was given (set-logic %s)" % (case["declared"], sent))
+                return
+            miss = theory_lacks(sl.theory, feats)
+            if "quantifiers" in feats and sl.quantifier_free:
+                miss.append("quantifiers")
+            if miss or sl not in declared:
+                run.fail({"subcheck": "select:handed-to", "query": how}, case,
+                         "%s(logic=%s): the solver declaring %s was created with (set-logic %s), which lacks %r for %s" % (
+                             how, lg, case["declared"], sent, miss, show(bp, 200)))
+        finally:
+            shutil.rmtree(tmp, ignore_errors=True)
+            for junk in ('"stdout"', "stdout"):
+                try:
+                    if os.path.exists(junk) and os.path.getsize(junk) == 0:
+                        os.remove(junk)
+                except Exception:
+                    pass
+    drive(body, st.randoms(use_true_random=True), n, derive_seed(seed, "c13h", shard))
+    return run
+
+
 # ---------------------------------------------------------------- order axioms
 
 FIELDS = ["arrays", "arrays_const", "bit_vectors", "floating_point", "integer_arithmetic", "real_arithmetic",
@@ -408,6 +480,7 @@ def main():
     jobs += [(shard_detect_enum, dict(shard=s, nshards=8, stride=1 if thorough else 8, offset=chk.seed)) for s in range(8)]
     jobs += [(shard_theory_order, dict(shard=s, nshards=16)) for s in range(16)]
     jobs += [(shard_logic_order, dict())]
+    jobs += [(shard_handed_to, dict(shard=s, seed=chk.seed, n=400 if thorough else 25)) for s in range(8)]
     jobs += [(shard_selection, dict(shard=s, nshards=4, seed=chk.seed, nsubsets=4000 if thorough else 250)) for s in range(4)]
     chk.add(run_shards(jobs))
     chk.exhaustive.append("all pairs (and, through the relation's bit rows, all triples) of the 1728 well-formed theories")
